@@ -395,3 +395,16 @@ func (p *Path) NewInput(label, kind string, s Sort) *InputRec {
 
 type pathEnd struct{ o Outcome }
 type killSig struct{}
+
+// NewAux creates an engine-internal variable (not part of the replay vector).
+func (p *Path) NewAux(label string, s Sort) *Term {
+	p.czN++
+	v := Var(fmt.Sprintf("%s!%d", label, p.czN), s)
+	p.auxVars = append(p.auxVars, v)
+	if p.model != nil {
+		p.model[v.Name] = 0
+	}
+	p.em.Ref(v)
+	p.solver.Send(p.em.Flush())
+	return v
+}
